@@ -10,8 +10,10 @@ package main
 // are inlined; `return s.step(s, c)` becomes XRedo.
 
 import (
+	"bytes"
 	"fmt"
 	"go/ast"
+	"go/printer"
 	"go/token"
 	"sort"
 	"strconv"
@@ -47,6 +49,127 @@ type scanTr struct {
 	consts map[string]int
 	states map[string]bool
 	evts   map[string]bool
+	// byte classes of the helpers of step-helpers.go (isWhitespace, IsNewLine and the case* forms), derived from
+	// their bodies by evaluation over the 256 bytes
+	classes map[string][]int
+}
+
+// evalBytePred evaluates a boolean expression over the byte parameter cname for the byte v.  Supported: comparisons of
+// the parameter with byte constants, !, &&, ||, parentheses and calls of other byte predicates of the package on the
+// parameter.  Anything else (a call into unicode, a table lookup, ...) is refused.
+func (t *scanTr) evalBytePred(e ast.Expr, cname string, v int, depth int) bool {
+	if depth > 8 {
+		t.p.bad(e, "byte predicate nested too deeply")
+	}
+	switch x := e.(type) {
+	case *ast.ParenExpr:
+		return t.evalBytePred(x.X, cname, v, depth)
+	case *ast.UnaryExpr:
+		if x.Op == token.NOT {
+			return !t.evalBytePred(x.X, cname, v, depth)
+		}
+	case *ast.BinaryExpr:
+		switch x.Op {
+		case token.LAND:
+			return t.evalBytePred(x.X, cname, v, depth) && t.evalBytePred(x.Y, cname, v, depth)
+		case token.LOR:
+			return t.evalBytePred(x.X, cname, v, depth) || t.evalBytePred(x.Y, cname, v, depth)
+		case token.EQL, token.NEQ, token.LSS, token.LEQ, token.GTR, token.GEQ:
+			var k int
+			var ok bool
+			op := x.Op
+			if identName(x.X) == cname {
+				k, ok = t.byteConst(x.Y)
+			} else if identName(x.Y) == cname {
+				k, ok = t.byteConst(x.X)
+				op = map[token.Token]token.Token{token.EQL: token.EQL, token.NEQ: token.NEQ, token.LSS: token.GTR, token.LEQ: token.GEQ, token.GTR: token.LSS, token.GEQ: token.LEQ}[op]
+			}
+			if !ok {
+				t.p.bad(e, "comparison in a byte predicate")
+			}
+			switch op {
+			case token.EQL:
+				return v == k
+			case token.NEQ:
+				return v != k
+			case token.LSS:
+				return v < k
+			case token.LEQ:
+				return v <= k
+			case token.GTR:
+				return v > k
+			case token.GEQ:
+				return v >= k
+			}
+		}
+	case *ast.CallExpr:
+		if len(x.Args) == 1 && identName(x.Args[0]) == cname {
+			if fd, ok := t.p.funcs[callName(x.Fun)]; ok && fd.Recv == nil {
+				return t.evalPredFunc(fd, v, depth+1)
+			}
+		}
+	}
+	t.p.bad(e, "unsupported byte predicate")
+	return false
+}
+
+// evalPredFunc: func f(c byte) bool { return <pred> }
+func (t *scanTr) evalPredFunc(fd *ast.FuncDecl, v int, depth int) bool {
+	if fd.Type.Params == nil || len(fd.Type.Params.List) != 1 || len(fd.Type.Params.List[0].Names) != 1 || identName(fd.Type.Params.List[0].Type) != "byte" ||
+		fd.Type.Results == nil || len(fd.Type.Results.List) != 1 || identName(fd.Type.Results.List[0].Type) != "bool" || fd.Body == nil || len(fd.Body.List) != 1 {
+		t.p.bad(fd, "byte predicate %s: expected func(c byte) bool { return ... }", fd.Name.Name)
+	}
+	r, ok := fd.Body.List[0].(*ast.ReturnStmt)
+	if !ok || len(r.Results) != 1 {
+		t.p.bad(fd, "byte predicate %s: expected a single return", fd.Name.Name)
+	}
+	return t.evalBytePred(r.Results[0], fd.Type.Params.List[0].Names[0].Name, v, depth)
+}
+
+// deriveClasses fills t.classes for isWhitespace / IsNewLine (predicates) and caseWhitespace / caseNewLine
+// (func(c byte) byte { if P(c) { return c } else { return otherByte(c) } }, otherByte(c) != c for every c).
+func (t *scanTr) deriveClasses() {
+	t.classes = map[string][]int{}
+	for _, n := range []string{"isWhitespace", "IsNewLine"} {
+		fd, ok := t.p.funcs[n]
+		if !ok {
+			fatal("scanner: byte predicate %s not found", n)
+		}
+		var set []int
+		for v := 0; v < 256; v++ {
+			if t.evalPredFunc(fd, v, 0) {
+				set = append(set, v)
+			}
+		}
+		t.classes[n] = set
+	}
+	// otherByte must never return its argument
+	ob, ok := t.p.funcs["otherByte"]
+	if !ok {
+		fatal("scanner: otherByte not found")
+	}
+	if got := nodeText(t.p, ob.Body); got != "{\n\tif b == 255 {\n\t\treturn 254\n\t} else {\n\t\treturn b + 1\n\t}\n}" {
+		t.p.bad(ob, "otherByte has an unexpected body: %q", got)
+	}
+	for cn, pn := range map[string]string{"caseWhitespace": "isWhitespace", "caseNewLine": "IsNewLine"} {
+		fd, ok := t.p.funcs[cn]
+		if !ok {
+			fatal("scanner: %s not found", cn)
+		}
+		want := "{\n\tif " + pn + "(c) {\n\t\treturn c\n\t} else {\n\t\treturn otherByte(c)\n\t}\n}"
+		if got := nodeText(t.p, fd.Body); got != want {
+			t.p.bad(fd, "%s has an unexpected body: %q", cn, got)
+		}
+		t.classes[cn] = t.classes[pn]
+	}
+}
+
+func nodeText(p *pkg, n ast.Node) string {
+	var b bytes.Buffer
+	if err := printer.Fprint(&b, p.fset, n); err != nil {
+		fatal("%v", err)
+	}
+	return b.String()
 }
 
 func stateCtor(name string) string {
@@ -130,10 +253,8 @@ func (t *scanTr) caseCond(e ast.Expr, st symState) string {
 	}
 	if c, ok := e.(*ast.CallExpr); ok && len(c.Args) == 1 && isC(c.Args[0], st) {
 		switch identName(c.Fun) {
-		case "caseWhitespace":
-			return byteSet([]int{' ', '\t'})
-		case "caseNewLine":
-			return byteSet([]int{'\n', '\r'})
+		case "caseWhitespace", "caseNewLine":
+			return byteSet(append([]int{}, t.classes[identName(c.Fun)]...))
 		}
 	}
 	t.p.bad(e, "case expression")
@@ -182,11 +303,8 @@ func (t *scanTr) branch(e ast.Expr, st symState, thenK, elseK func(symState) *tr
 		}
 	case *ast.CallExpr:
 		name := callName(x.Fun)
-		if name == "IsNewLine" && len(x.Args) == 1 && isC(x.Args[0], st) {
-			return node(byteSet([]int{'\n', '\r'}), thenK(st.clone()), elseK(st.clone()))
-		}
-		if name == "isWhitespace" && len(x.Args) == 1 && isC(x.Args[0], st) {
-			return node(byteSet([]int{' ', '\t'}), thenK(st.clone()), elseK(st.clone()))
+		if (name == "IsNewLine" || name == "isWhitespace") && len(x.Args) == 1 && isC(x.Args[0], st) {
+			return node(byteSet(append([]int{}, t.classes[name]...)), thenK(st.clone()), elseK(st.clone()))
 		}
 		flags := map[string]string{
 			"isDirective":                             "CIsDirective",
@@ -735,6 +853,7 @@ func buildScanner(repo string) *scanModel {
 			}
 		}
 	}
+	t.deriveClasses()
 	evts := constBlockNames(p, "lexeme-event.go", "LexemeEventType")
 	for _, e := range evts {
 		t.evts[e] = true
